@@ -30,7 +30,8 @@
 (***************************************************************************)
 EXTENDS Obs
 
-CONSTANTS FutIds, MaxQ
+CONSTANTS FutIds, MaxQ,
+          TwoStage    \* subset of BOOLEAN: which next() implementations the exploration considers (see PollWaiting)
 
 VARIABLES q,          \* the lock's wait queue: sequence of waiters, head first
           granted,    \* waiters that own the lock but have not been polled since
@@ -92,7 +93,10 @@ PollBlocked(s, via) ==
 Release(w, gs) == Serve(q, granted \ {w}, gs)
 
 (* a waiting subscriber polled again (same call) *)
-PollWaiting(s, via) ==
+(* `two`: whether this call locks a second time after finding an update (next_ref() must, to hand out the guard; next() *)
+(* does so today but could as well clone the value under the first lock -- the property does not care, so both are    *)
+(* behaviours of the specification and the trace specification follows whichever the implementation did)              *)
+PollWaiting(s, via, two) ==
     /\ s \in WaitingSubs
     /\ LET w == WaiterOf(s) IN
        /\ w.via = via
@@ -108,7 +112,7 @@ PollWaiting(s, via) ==
                       sv == Release(w, guards)
                       relock == via \in TwoStageVias /\ r.t = "Some"
                       canNow == sv[1] = <<>> /\ ~WriterHeld(guards, sv[2])
-                  IN IF relock /\ ~canNow
+                  IN IF relock /\ ~canNow /\ (two \/ via = "PollNextRef")
                      THEN q' = Append(sv[1], WSub(s, via, 2)) /\ granted' = sv[2] /\ ret' = RPending
                      ELSE q' = sv[1] /\ granted' = sv[2] /\ ret' = r
                /\ UNCHANGED <<kind, val, ver, owners, weaks, subs, guards, futs>>
@@ -182,7 +186,7 @@ WaitingNext ==
        \/ Plain(\E g \in GuardIds : GuardGet(g))
        \/ Plain(\E g \in WriteGuards, a \in Vals : Set("g", g, a))
        \/ \E f \in FutIds : PollFut(f)
-       \/ \E s \in WaitingSubs : PollWaiting(s, WaiterOf(s).via)
+       \/ \E s \in WaitingSubs, two \in TwoStage : PollWaiting(s, WaiterOf(s).via, two)
        \/ \E s \in SubIds \ WaitingSubs, via \in PollVias : PollBlocked(s, via)
        \/ Plain(\E s \in SubIds \ WaitingSubs, via \in PollVias : ReadNow /\ Poll(s, via))
        \/ \E o \in OwnerIds, f \in {Smallest(FutIds \ PendingFuts)}, k \in WriterKinds, a \in Vals :
